@@ -182,6 +182,7 @@ type genOpts struct {
 	bigNums   bool // json.Number values
 	floats    bool
 	simpleKeys bool // keys usable in a JSONPath without quoting
+	moreNulls  bool // more null / false leaves
 }
 
 var plainStrings = []string{"a", "abc", "x1", "hello", "Zed", "k_1", "a-b", "a.b", "q?", "$x", "~", "|", "@a", "^x", "é", "a+b", "a*b", "x-1",
@@ -250,6 +251,14 @@ var bigNumPool = []string{"9223372036854775800", "9223372036854775807", "9223372
 
 func genScalar(r *common.Rng, o genOpts, hist func(string)) any {
 	x := r.Intn(100)
+	if o.moreNulls && r.Chance(20) {
+		if r.Bool() {
+			hist("scalar:null")
+			return nil
+		}
+		hist("scalar:bool")
+		return false
+	}
 	switch {
 	case x < 8:
 		hist("scalar:null")
